@@ -37,6 +37,7 @@ func init() {
 		if npro > len(msgs) {
 			npro = len(msgs)
 		}
+		os.MkdirAll("/root/scratch", 0o755)
 		dir, _ := os.MkdirTemp("/root/scratch", "parfile")
 		defer os.RemoveAll(dir)
 		clone := func(m *utils.Message) *utils.Message {
